@@ -22,3 +22,122 @@ package keeper
 //@ func (Keeper).Open
 //@ modifies world
 //@ havoc-only
+
+// A position's identity never changes once it is shared: owner, id (assigned once by SetMTP),
+// pool, side and assets.
+//@ stablefields types.MTP Address Id AmmPoolId Position CollateralAsset CustodyAsset LiabilitiesAsset TradingAsset : (Keeper).SetMTP
+
+// ---- frames of the settlement and close helpers (not looked into: checked against the call-graph
+// inference for chain state; every pointer parameter they could write through is listed) ----------------
+//@ func (Keeper).SettleFunding
+//@ modifies module:perpetual, *mtp, *pool
+//@ frame-only
+
+//@ func (Keeper).SettleMTPBorrowInterestUnpaidLiability
+//@ modifies bank, module:amm, *mtp, *pool
+//@ frame-only
+
+//@ func (Keeper).UpdateMTPBorrowInterestUnpaidLiability
+//@ modifies *mtp
+//@ frame-only
+
+//@ func (Keeper).GetMTPHealth
+//@ modifies module:amm
+//@ frame-only
+
+//@ func (Keeper).ForceCloseLong
+//@ callers C10/force-close-only-behind-a-gate: (Keeper).CheckAndLiquidateUnhealthyPosition, (Keeper).CheckAndCloseAtStopLoss, (Keeper).CheckAndCloseAtTakeProfit
+//@ modifies bank, module:accountedpool, module:amm, module:masterchef, module:perpetual, module:sdk-distribution, module:tier, *mtp, *pool
+//@ frame-only
+
+//@ func (Keeper).ForceCloseShort
+//@ callers C10/force-close-only-behind-a-gate: (Keeper).CheckAndLiquidateUnhealthyPosition, (Keeper).CheckAndCloseAtStopLoss, (Keeper).CheckAndCloseAtTakeProfit
+//@ modifies bank, module:accountedpool, module:amm, module:masterchef, module:perpetual, module:sdk-distribution, module:tier, *mtp, *pool
+//@ frame-only
+
+//@ func (Keeper).CalcMTPTakeProfitLiability
+//@ modifies nothing
+//@ frame-only
+
+//@ func (Keeper).GetLiquidationPrice
+//@ modifies nothing
+//@ frame-only
+
+//@ func (Keeper).CheckLowPoolHealthAndMinimumCustody
+//@ modifies nothing
+//@ frame-only
+
+//@ func (Keeper).EmitForceClose
+//@ modifies *mtp
+//@ frame-only
+
+//@ func (Keeper).EmitOpenEvent
+//@ modifies *mtp
+//@ frame-only
+
+//@ func (Keeper).Borrow
+//@ modifies bank, module:amm, module:perpetual, *mtp, *ammPool, *pool
+//@ frame-only
+
+//@ func (Keeper).UpdatePoolHealth
+//@ modifies module:perpetual, *pool
+//@ frame-only
+
+//@ func (Keeper).EstimateSwapGivenIn
+//@ modifies module:amm
+//@ frame-only
+
+//@ func (Keeper).EstimateSwapGivenOut
+//@ modifies module:amm
+//@ frame-only
+
+//@ func (Keeper).EstimateAndRepay
+//@ modifies bank, module:amm, module:perpetual, *mtp, *pool, *ammPool
+//@ callers C10/repay-only-from-owner-close-or-force-close: (Keeper).ClosePosition, (Keeper).ForceCloseLong, (Keeper).ForceCloseShort
+//@ frame-only
+
+// The safety factor is a parameter read; summarised so that clauses can name the value read.
+//@ func (Keeper).GetSafetyFactor
+//@ modifies nothing
+//@ frame-only
+
+// ---- C10: others close a position only when allowed; opens start healthy ---------------------------------
+//@ define mtpHas(ctx, a, id) := has(ctx, "perpetual:types.GetMTPKey", a, id)
+//@ define mtpRow(ctx, a, id) := row(ctx, "perpetual:types.GetMTPKey", "types.MTP", a, id)
+
+//@ func (Keeper).OpenConsolidate
+//@ decabstract
+//@ ensures C10/reopen-above-safety-factor: err == nil ==> mtpHas(ctx, unbech32(existingMtp.Address), existingMtp.Id) && mtpRow(ctx, unbech32(existingMtp.Address), existingMtp.Id).MtpHealth > resultOf("GetSafetyFactor", 1) && mtpRow(ctx, unbech32(existingMtp.Address), existingMtp.Id).MtpHealth == fst(resultOf("GetMTPHealth", 1))
+
+//@ func (Keeper).ProcessOpen
+//@ decabstract
+//@ ensures C10/opens-above-safety-factor: err == nil ==> mtpHas(ctx, unbech32(result0.Address), result0.Id) && mtpRow(ctx, unbech32(result0.Address), result0.Id).MtpHealth > resultOf("GetSafetyFactor", 1) && mtpRow(ctx, unbech32(result0.Address), result0.Id).MtpHealth == fst(resultOf("GetMTPHealth", 1))
+
+// The three gates. Whatever they return, a close has been attempted only behind the stated
+// condition, evaluated on the values the module itself computes at that moment.
+//@ func (Keeper).CheckAndLiquidateUnhealthyPosition
+//@ decabstract
+//@ ensures C10/closes-only-at-or-below-safety-factor: called("ForceCloseLong", 1) || called("ForceCloseShort", 1) ==> fst(resultOf("GetMTPHealth", 1)) <= resultOf("GetSafetyFactor", 1)
+
+//@ func (Keeper).CheckAndCloseAtStopLoss
+//@ decabstract
+//@ ensures C10/closes-only-at-stop-loss: called("ForceCloseLong", 1) ==> fst(resultOf("GetAssetPrice", 1)) <= old(mtp.StopLossPrice) && old(mtp.Position) == 1
+//@ ensures C10/closes-short-only-at-stop-loss: called("ForceCloseShort", 1) ==> fst(resultOf("GetAssetPrice", 1)) >= old(mtp.StopLossPrice) && old(mtp.Position) == 2
+//@ ensures C10/position-off-its-stop-loss-left-alone: !called("ForceCloseLong", 1) && !called("ForceCloseShort", 1) ==> unchanged(ctx)
+
+//@ func (Keeper).CheckAndCloseAtTakeProfit
+//@ decabstract
+//@ ensures C10/closes-only-at-take-profit: called("ForceCloseLong", 1) ==> fst(resultOf("GetAssetPrice", 1)) >= old(mtp.TakeProfitPrice) && old(mtp.Position) == 1
+//@ ensures C10/closes-short-only-at-take-profit: called("ForceCloseShort", 1) ==> fst(resultOf("GetAssetPrice", 1)) <= old(mtp.TakeProfitPrice) && old(mtp.Position) == 2
+//@ ensures C10/position-off-its-take-profit-left-alone: !called("ForceCloseLong", 1) && !called("ForceCloseShort", 1) ==> unchanged(ctx)
+
+// A stored position sits under its owner's address and its id.
+//@ rowinv C10/mtpKey table perpetual:types.GetMTPKey row types.MTP : unbech32(row.Address) == key0 && row.Id == key1
+
+//@ func (Keeper).SetMTP
+//@ ensures C10/stored-under-owner-and-id: err == nil ==> mtpHas(ctx, unbech32(mtp.Address), mtp.Id)
+
+// The owner's close looks the position up under the sender's own address.
+//@ func (Keeper).ClosePosition
+//@ decabstract
+//@ ensures C10/owner-closes-own-position: err == nil ==> unbech32(result0.Address) == unbech32(msg.Creator) && result0.Id == msg.Id
